@@ -41,4 +41,9 @@ TEXTS.update({
     "C11": {"text": "Proof that the modelled parallel split tree (any depth, hence any thread count, both sides of the 10-samples rule) yields the same names, key set and cells as the serial build (T11_tree, T11_threads), that column i is sample i's dictionary (T02_samples) and that map iteration order only permutes rows (T11_order). The runtime part (rayon scheduling, hash seeds, pool initialisation) is decided by a CLI matrix over subcommands x input kinds x thread counts x repetitions, labelled as exploration in the evidence.", "note": STD + " Thread schedules are sampled, not proved.", "technique": "Lean 4 proof of schedule-independence of the modelled logic + CLI thread matrix"},
 })
 
+TEXTS.update({
+    "C09": {"text": "CBOR-level model of the serialised MergeSkaArray (field order, shortest-form heads, plain integer vs tag-2 big integer for 128-bit k-mers, width-specific decoding, the k_bits check and the try-64-then-128 dispatch). Every file the real code saves is decoded by the model and re-encoded byte for byte; width acceptance and dispatch are compared for all 30 k and both widths, including k>=33 files whose k-mers fit in 64 bits. Theorems proved so far are listed in the evidence file; the round-trip/dispatch theorems are in progress.", "note": STD + " Snappy compression and serde derive are trusted (exercised by every run).", "technique": "Lean 4 model of the CBOR layout + byte-for-byte differential check (round-trip proof in progress)"},
+    "C19": {"text": "Fault enumeration: every truncation point and every single-bit flip of concrete .skf files goes through the real loader (with the lib.rs width dispatch) and must be rejected or decode to exactly the original content; random faults additionally go through every CLI subcommand. A Lean model of the Snappy frame decoder (chunk grammar, length checks, masked CRC-32C, raw Snappy block decompression) is cross-checked against the snap crate on the same faults; theorems about it (truncation, identifier and CRC-field flips) are listed in the evidence file as they are proved.", "note": STD + " Flips in compressed payloads and chunk type/length bytes are decided by enumeration per file, not by theorem.", "technique": "exhaustive fault enumeration on the real loader + Lean frame-decoder model cross-check"},
+})
+
 NOT_YET = {}
